@@ -10,7 +10,7 @@ for m in m1 m2 m3; do
   [ -f $IN/$m/patch.diff ] || continue
   cd $WT && git checkout -q -- . && git apply $IN/$m/patch.diff 2>/dev/null || { echo "$P $m APPLY-FAILED"; continue; }
   T=$(PYTHONPATH=$WT /venv/bin/python -m pytest -q -p no:cacheprovider biom/tests 2>&1 | tail -1)
-  sed "s|/tmp/wt[23456]/$P|$WT|g" $IN/$m/demo.py > /tmp/cw/demo_$P.py
+  sed "s|/tmp/wt[234567]/$P|$WT|g" $IN/$m/demo.py > /tmp/cw/demo_$P.py
   (cd $WT && PYTHONPATH=$WT timeout 300 /venv/bin/python /tmp/cw/demo_$P.py >/dev/null 2>&1); W=$?
   cd $WT && git checkout -q -- .
   (cd $WT && PYTHONPATH=$WT timeout 300 /venv/bin/python /tmp/cw/demo_$P.py >/dev/null 2>&1); WO=$?
